@@ -138,5 +138,18 @@ def run(tier, seed):
     tasks += c07g.harnesses(rep, "serial64", build.ir("serial64", "O0"), tier)
     xp = build.ir("serial64", "O0", crate="x25519-dalek", features=["static_secrets", "reusable_secrets"], with_deps=True)
     tasks += c07g.x_harnesses(rep, xp, tier)
+    # public-key derivation through the Edwards basepoint (layer G) and the contributory check (layer F on the linked x25519-dalek IR)
+    tasks += c07g.pub_harnesses(rep, xp, tier)
+    def b_contrib(it):
+        s = ByteString(it, "ss"); inp = it.new_region("in", 32); s.store(it, inp)
+        r = it.P(it.call("vp_x_was_contributory", [inp])).cval() & 1
+        ez = [f for f in it.facts if f[0] == "eqz"]
+        ok = len(ez) == 1 and (fnorm(ez[0][1] - s.low).is_zero() or fnorm(ez[0][1] + s.low).is_zero())
+        return [("one zero test, on the shared secret's field value (low 255 bits mod p); for the canonical encodings diffie_hellman produces: on the bytes being all zero", ok),
+                ("was_contributory is false exactly when that value is zero", bool(ez) and r == 1 - ez[0][2])]
+    tasks.append(lambda: run_paths(rep, "serial64/x25519-dalek SharedSecret::was_contributory", "serial64", xp, "vp_x_was_contributory", b_contrib))
+    # Ed25519 -> X25519 key conversions (linked ed25519-dalek IR, SHA-512 uninterpreted): checks/c08k.py
+    from checks import c08k
+    tasks += c08k.conversion_harnesses(rep, tier)
     run_tasks(tasks, rep)
     return rep
